@@ -3,6 +3,8 @@
 use std::sync::atomic::{AtomicI32, Ordering::Relaxed};
 
 pub static TRACE_FD: AtomicI32 = AtomicI32::new(-1);
+/// number of pthread_create calls seen by the interposer (0 = this process never had a second thread)
+pub static THREADS_CREATED: std::sync::atomic::AtomicUsize = std::sync::atomic::AtomicUsize::new(0);
 
 pub fn sys_write(fd: i32, bytes: &[u8]) -> isize {
     unsafe { libc::syscall(libc::SYS_write, fd as libc::c_long, bytes.as_ptr(), bytes.len()) as isize }
@@ -40,6 +42,9 @@ pub fn exit_now(code: i32) -> ! {
 
 /// Number of threads of this process (from /proc/self/stat, read with direct system calls).
 pub fn thread_count() -> usize {
+    if THREADS_CREATED.load(std::sync::atomic::Ordering::SeqCst) == 0 {
+        return 1;
+    }
     unsafe {
         let fd = libc::syscall(libc::SYS_openat, libc::AT_FDCWD, b"/proc/self/stat\0".as_ptr(), libc::O_RDONLY | libc::O_CLOEXEC, 0) as i32;
         if fd < 0 {
